@@ -179,6 +179,7 @@ package opshell
 //@   on enter ctxerrgroup.Group.GoContext(g, c, f): assert(g == eg && c == ectx && nWait == 0, "activities_run_in_the_group_with_its_context"); if nWinch == 0 { nWinch++ } else { nOut++ }
 //@   on enter ctxerrgroup.Group.Go(g, f): assert(g == eg && nWait == 0, "reader_runs_in_the_group"); nIn++
 //@   on call ctxerrgroup.Group.Wait(g) (e): assert(g == eg && nWinch == 1 && nOut == 1 && nIn == 1, "waits_after_starting_everything"); res = e; nWait++
+//@   on close s.ich(): assert(false, "the_input_channel_is_never_closed_by_the_shell_because_an_insert_may_still_be_sending_on_it")
 //@   ensures returns_the_groups_result: nWait == 1 && err == res
 
 // resize gives the terminal the size of the tty.
